@@ -51,6 +51,7 @@ unsigned int vf_atomic_exchange_u32(unsigned int *p, unsigned int v, int order, 
   unsigned int old = *p; *p = v; g_exchanged_out = old; return old;
 }
 _Bool g_value_constructed, g_sealed;
+struct FC_CallbackNode *g_of_node; unsigned g_of_direct, g_of_fn_runs, g_of_deleted, g_of_registered, g_of_news; _Bool g_of_link_ok, g_of_after_seal_ok;
 /* set_value under contract: callbacks registered before the seal form a list of ANY length (typed node array, node k -> node k+1) */
 struct FC_CallbackNode *g_cb; unsigned long g_cbn, g_ran, g_deleted; _Bool g_cb_order_ok, g_cb_late_ok, g_del_ok; unsigned int g_waiters0; int g_value0; FC_t *g_ctx;
 static FC_t *b_ctx; static int b_expected_value;
@@ -66,7 +67,9 @@ void *vf_atomic_exchange_ptr(void **p, void *v, int order, int site) {
   g_value_constructed = 1;
   void *old = *p; *p = v; if (v == (void *)SEALED) g_sealed = 1; return old;
 }
+#ifndef VF_ONFINISH
 void *vf_atomic_load_ptr(void **p, int order, int site) { return *p; }
+#endif
 int Sched_futex_wake_all(uint32_t *f) { if (f == g_w) g_wakes++; return nondet_int(); }
 int Sched_futex_wait(uint32_t *f, unsigned int val, struct timespec *timeout) {
   if (f == g_w) {
@@ -94,6 +97,7 @@ int vf_clock_gettime(int clk, struct timespec *ts) {
 static void vf_havoc_ghosts(void) {
   g_cbn = nondet_u32(); __CPROVER_assume(g_cbn < (1UL << 20)); g_cb = malloc((g_cbn + 1) * sizeof(struct FC_CallbackNode)); __CPROVER_assume(g_cb != 0);
   g_ran = g_deleted = 0; g_cb_order_ok = g_cb_late_ok = g_del_ok = 1; g_waiters0 = nondet_u32(); g_value0 = nondet_int(); g_value_constructed = 0; g_sealed = 0;
+  g_of_node = 0; g_of_direct = g_of_fn_runs = g_of_deleted = g_of_registered = g_of_news = 0; g_of_link_ok = g_of_after_seal_ok = 1;
   g_wakes = 0; g_sleeps = 0; g_ready_seen = 0; g_clock_reads = 0; g_sec = nondet_i64(); g_nsec = nondet_i64(); g_clock_failed = 0; g_timeout0 = nondet_i64(); g_env_on = (nondet_u32() & 1) != 0; }
 
 #define FC_SHAPE(c) (__CPROVER_is_fresh(c, sizeof(*c)) && __CPROVER_pointer_equals(g_w, &(c)->_futex._value))
@@ -142,7 +146,7 @@ __CPROVER_ensures(__CPROVER_return_value == (int *)c->_storage)
 /* ---- set_value on explicitly built contexts (BOUNDED: <= 3 registered callbacks, any waiter count) ---- */
 #define MAXCB 3
 static Node_t *b_nodes[MAXCB]; static unsigned b_ncb, b_runs[MAXCB], b_deleted;
-#ifndef VF_SETVAL_CONTRACT
+#if !defined(VF_SETVAL_CONTRACT) && !defined(VF_ONFINISH)
 void Fn_op_call(struct Fn *f) {
   /* "callbacks never run before the value is set": value constructed, head sealed, and the callback sees the value */
   __CPROVER_assert(g_value_constructed && g_sealed && b_ctx->_head == SEALED, "K5 C08.set_value a callback runs only after the value is constructed and the head sealed");
@@ -231,5 +235,54 @@ __CPROVER_ensures(g_ran == g_cbn && g_deleted == g_cbn && g_cb_order_ok && g_cb_
 //@  __CPROVER_loop_invariant(g_ran <= g_cbn && g_deleted == g_ran && g_cb_order_ok && g_cb_late_ok && g_del_ok && (g_ran < g_cbn ? CB_AT(@l1:head@, g_ran) : @l1:head@ == 0))
 //@  __CPROVER_loop_invariant(g_value_constructed && g_sealed && g_ctx->_head == SEALED && *(int *)g_ctx->_storage == g_value0 && *g_w == READY)
 //@  __CPROVER_decreases(g_cbn - g_ran)
+//@end
+
+/* ---- on_finish(callback) under contract (job C08.on_finish, VF_ONFINISH): registration racing with other registrations and with the
+ * seal.  SC rely/guarantee on _head: other threads push their own nodes (any non-sealed value) or seal it (SEALED is final).
+ * Exactly one of three things happens, exactly once: the callback runs now because the head was already sealed (with the value);
+ * or its node is linked in front of EXACTLY the list it replaced (node->next == the head value the successful CAS compared against,
+ * so no other registration is cut out) and set_value will run it; or the seal won the race, the node's function runs now and the node
+ * is freed.  Never registered and run, never neither. */
+#ifdef VF_ONFINISH
+static void of_env(void **p) {
+  if (*p == (void *)SEALED) return;                       /* sealed is final */
+  if (nondet_u32() & 1) {
+    unsigned long v = nondet_u64(); __CPROVER_assume(v != 0 && v != (unsigned long)SEALED && v != (unsigned long)g_of_node);
+    *p = (nondet_u32() & 1) ? (void *)SEALED : (void *)v;   /* another registration, or the seal */
+  }
+}
+void *vf_atomic_load_ptr(void **p, int order, int site) {
+  __CPROVER_assert(order == 2 || order == 4 || order == 5, "K6 C08.on_finish the head is read with acquire");
+  of_env(p); return *p;
+}
+_Bool vf_atomic_compare_exchange_weak_ptr(void **p, void **expected, void *desired, int success, int failure, int site) {
+  __CPROVER_assert(success == 4 || success == 5, "K6 C08.on_finish the registering CAS is acq_rel");
+  of_env(p);
+  if (*p != *expected || (nondet_u32() & 1)) { *expected = *p; return 0; }
+  /* registration succeeds: the node must be linked in front of exactly the list it replaces */
+  if (!(desired == (void *)g_of_node && g_of_node != 0 && (void *)g_of_node->next == *p && *p != (void *)SEALED)) g_of_link_ok = 0;
+  *p = desired; if (g_of_registered < 1000) g_of_registered++;
+  return 1;
+}
+void *vf_operator_new(size_t size, size_t align) { g_of_node = malloc(sizeof(struct FC_CallbackNode)); __CPROVER_assume(g_of_node != 0); if (g_of_news < 1000) g_of_news++; return g_of_node; }
+void Fn_ctor__lambda_future_on_finish_1_void(struct Fn *f, struct lambda_future_on_finish_1 *c) { }
+void internal_future_run_callback__Cb_int_0(struct Cb *cb, int *value) { if (g_of_direct < 1000) g_of_direct++; }
+void Fn_op_call(struct Fn *f) { if (!(g_of_node != 0 && f == &g_of_node->function && g_of_registered == 0)) g_of_after_seal_ok = 0; if (g_of_fn_runs < 1000) g_of_fn_runs++; }
+void Fn_dtor(struct Fn *f) { }
+void vf_operator_delete(void *p, size_t n) { if (!(p == (void *)g_of_node && g_of_fn_runs == 1)) g_of_after_seal_ok = 0; if (g_of_deleted < 1000) g_of_deleted++; }
+void FC_on_finish__CbRef_void(FC_t *c, struct Cb *cb)
+__CPROVER_requires(__CPROVER_is_fresh(c, sizeof(*c)) && __CPROVER_is_fresh(cb, 1) && g_of_direct == 0 && g_of_fn_runs == 0 && g_of_deleted == 0 && g_of_registered == 0 && g_of_news == 0 && g_of_link_ok && g_of_after_seal_ok && g_of_node == 0)
+__CPROVER_assigns(c->_head, g_of_node, g_of_direct, g_of_fn_runs, g_of_deleted, g_of_registered, g_of_news, g_of_link_ok, g_of_after_seal_ok)
+__CPROVER_ensures(g_of_link_ok && g_of_after_seal_ok)
+__CPROVER_ensures(g_of_direct + g_of_fn_runs + g_of_registered == 1)                                        /* exactly one outcome, once */
+__CPROVER_ensures(g_of_direct == 1 ==> (g_of_news == 0 && g_of_deleted == 0))
+__CPROVER_ensures(g_of_registered == 1 ==> (g_of_news == 1 && g_of_deleted == 0))
+__CPROVER_ensures(g_of_fn_runs == 1 ==> (g_of_news == 1 && g_of_deleted == 1))
+__CPROVER_ensures(g_of_registered == 1 ==> g_of_deleted == 0)
+;
+#endif
+//@loop FC_on_finish__CbRef_void 1
+//@  __CPROVER_assigns(@l1:head@, self->_head, g_of_node->next, g_of_fn_runs, g_of_deleted, g_of_registered, g_of_link_ok, g_of_after_seal_ok)
+//@  __CPROVER_loop_invariant(g_of_direct == 0 && g_of_fn_runs == 0 && g_of_deleted == 0 && g_of_registered == 0 && g_of_news == 1 && g_of_link_ok && g_of_after_seal_ok && @l2:node@ == g_of_node && g_of_node != 0 && @l1:head@ != SEALED)
 //@end
 #endif
